@@ -188,3 +188,123 @@ pub fn zerv(c: &mut Cur) -> Result<Result<Zerv, String>, String> {
         Err(e) => Ok(Err(e.to_string())),
     }
 }
+
+// ---------------------------------------------------------------- encoding (Zerv -> tokens)
+use crate::hex;
+
+fn on(o: &Option<u64>) -> String {
+    match o {
+        Some(n) => n.to_string(),
+        None => "~".into(),
+    }
+}
+fn os(o: &Option<String>) -> String {
+    match o {
+        Some(s) => hex(s),
+        None => "~".into(),
+    }
+}
+
+pub fn enc_json(v: &serde_json::Value, out: &mut Vec<String>) {
+    use serde_json::Value;
+    match v {
+        Value::Null => out.push("jn".into()),
+        Value::Bool(true) => out.push("jt".into()),
+        Value::Bool(false) => out.push("jf".into()),
+        Value::Number(n) => out.push(format!("j#{}", hex(&n.to_string()))),
+        Value::String(s) => out.push(format!("j${}", hex(s))),
+        Value::Array(a) => {
+            out.push(format!("ja{}", a.len()));
+            for x in a {
+                enc_json(x, out);
+            }
+        }
+        Value::Object(m) => {
+            out.push(format!("jo{}", m.len()));
+            for (k, x) in m {
+                out.push(hex(k));
+                enc_json(x, out);
+            }
+        }
+    }
+}
+
+pub fn enc_comp(c: &Component) -> String {
+    match c {
+        Component::Str(s) => format!("s:{}", hex(s)),
+        Component::UInt(n) => format!("u:{n}"),
+        Component::Var(Var::Custom(n)) => format!("c:{}", hex(n)),
+        Component::Var(Var::Timestamp(p)) => format!("t:{}", hex(p)),
+        Component::Var(v) => format!("v:{v:?}"),
+    }
+}
+
+pub fn enc_zerv(z: &Zerv) -> String {
+    let mut out: Vec<String> = vec!["Z".into()];
+    for part in [z.schema.core(), z.schema.extra_core(), z.schema.build()] {
+        out.push(part.len().to_string());
+        for c in part {
+            out.push(enc_comp(c));
+        }
+    }
+    let prec: Vec<String> = z.schema.precedence_order().iter().map(|p| format!("{p:?}")).collect();
+    out.push(prec.len().to_string());
+    out.extend(prec);
+    let v = &z.vars;
+    out.push(on(&v.major));
+    out.push(on(&v.minor));
+    out.push(on(&v.patch));
+    out.push(on(&v.epoch));
+    out.push(match &v.pre_release {
+        None => "~".into(),
+        Some(p) => format!(
+            "{}/{}",
+            match p.label {
+                PreReleaseLabel::Alpha => "a",
+                PreReleaseLabel::Beta => "b",
+                PreReleaseLabel::Rc => "rc",
+            },
+            on(&p.number)
+        ),
+    });
+    out.push(on(&v.post));
+    out.push(on(&v.dev));
+    out.push(on(&v.distance));
+    out.push(match v.dirty {
+        None => "~".into(),
+        Some(true) => "1".into(),
+        Some(false) => "0".into(),
+    });
+    out.push(os(&v.bumped_branch));
+    out.push(os(&v.bumped_commit_hash));
+    out.push(on(&v.bumped_timestamp));
+    out.push(os(&v.last_branch));
+    out.push(os(&v.last_commit_hash));
+    out.push(on(&v.last_timestamp));
+    out.push(os(&v.last_tag_version));
+    enc_json(&v.custom, &mut out);
+    out.join(" ")
+}
+
+/// RON text of an object whose schema need not be valid (written by hand; vars through the ron serializer)
+pub fn raw_ron(rs: &RawSchema, vs: &ZervVars) -> String {
+    fn comp_ron(c: &Component) -> String {
+        match c {
+            Component::Str(s) => format!("str({})", ron::to_string(s).unwrap()),
+            Component::UInt(n) => format!("uint({n})"),
+            Component::Var(Var::Custom(n)) => format!("var(custom({}))", ron::to_string(n).unwrap()),
+            Component::Var(Var::Timestamp(p)) => format!("var(ts({}))", ron::to_string(p).unwrap()),
+            Component::Var(v) => format!("var({v:?})"),
+        }
+    }
+    let list = |l: &Vec<Component>| l.iter().map(comp_ron).collect::<Vec<_>>().join(", ");
+    let prec = rs.prec.iter().map(|p| format!("{p:?}")).collect::<Vec<_>>().join(", ");
+    format!(
+        "(schema: (core: [{}], extra_core: [{}], build: [{}], precedence_order: [{}]), vars: {})",
+        list(&rs.core),
+        list(&rs.extra),
+        list(&rs.build),
+        prec,
+        ron::to_string(vs).unwrap()
+    )
+}
